@@ -264,6 +264,36 @@ def kf_multi_reexported(w: Dict[str, Any]) -> bool:
     return list(w["expected_site"]) in [list(x["site"]) for x in P.expected_reexports(proj, multi=True)]
 
 
+def kf_nested_class_scope(w: Dict[str, Any]) -> bool:
+    """Known finding: a bare name read in the body of a NESTED class is looked up in the enclosing class before the module
+       (Class._localNameToFullName delegates to its parent, whatever the parent is); Python never looks in the enclosing class.
+       Also matches the same name read back through the nested class (Outer.Inner.alias) from outside."""
+    if w.get("invariant") != "ResolvesRightOrNot" or not w.get("got_site") or not w.get("scope"):
+        return False
+    mods = w.get("origin", {}).get("project", {}).get("mods", [])
+    mi = w["got_site"][0]
+    if not (0 < mi <= len(mods)):
+        return False
+    ops = mods[mi - 1]["ops"]
+    stacks: Dict[int, List[int]] = {}          # class statement -> the classes open around it
+    owner: Dict[int, int] = {}                 # statement -> the class it is a direct member of (0: module)
+    open_: List[int] = []
+    for pc, op in enumerate(ops, 1):
+        owner[pc] = open_[-1] if open_ else 0
+        if op["k"] == "class":
+            stacks[pc] = list(open_)
+            open_.append(pc)
+        elif op["k"] == "endclass":
+            open_.pop()
+    parts = str(w.get("name", "")).split(".")
+    if len(parts) == 1:
+        readers = [w["scope"][1]] if w["scope"][0] == mi else []
+    else:
+        readers = [pc for pc, op in enumerate(ops, 1) if op["k"] == "class" and op["n"] == parts[-2]]
+    got_owner = owner.get(w["got_site"][1])
+    return any(stacks.get(r) and got_owner in stacks[r] for r in readers)
+
+
 def check_pybind_vs_cpython(ctx: Ctx, proj: Dict[str, Any], rows: List[Dict[str, Any]], pid: int, invalid: List[int] = ()) -> int:
     """PyBind.tla against CPython importing the generated files, for every entry order of the project (one for acyclic projects).
        For cyclic projects the orders in which the interpreter raises must be exactly those PyBind marks invalid."""
@@ -321,6 +351,7 @@ def run(ctx: Ctx) -> int:
     ctx.register_matcher("definition-then-import-of-same-name", kf_definition_then_import)
     ctx.register_matcher("reexported-then-redefined-in-reexporter", kf_moved_then_redefined)
     ctx.register_matcher("object-reexported-by-several-modules-unresolved", kf_multi_reexported)
+    ctx.register_matcher("nested-class-sees-enclosing-class-names", kf_nested_class_scope)
     projs = c04_projects(ctx.quick, rng)
     counters: Dict[str, int] = collections.Counter()
     validated_names = 0
